@@ -1250,6 +1250,25 @@ def rule_P4_sampler(ctx, rid='P4', rid6='P6'):
                            'write_shell_update (line %s) is reachable without an intervening '
                            'full write: the checkpoint would not contain the change'
                            % [cfg.nodes[i].lineno for i in leak]))
+    # -- (4b) file == memory at every step boundary: a state change of run() reaches a
+    # checkpoint write before the loop comes round or run() returns (a stop by n_like_max or
+    # timeout, or a kill while the next batch is evaluated, leaves exactly that file)
+    loop_heads = [t.id for t in cfg.nodes if t.kind == 'test' and isinstance(t.ast, ast.While)]
+    for nid, desc, hits in sites:
+        if nid in first_block or not any(a in persisted for a, k in hits):
+            continue
+        if not any(cfg.can_reach(h, nid) for h in loop_heads):
+            continue        # before the loop: covered by the first-batch obligation
+        r = cfg.reach(nid, avoid=full | incr, edge_ok=edge_ok_for(nid))
+        leak = [h for h in loop_heads if h in r] + ([cfg.exit.id] if cfg.exit.id in r else [])
+        ok = not leak
+        ctx.ob(rid6, 'Sampler.run:%s:persisted-before-next-step' % _site_key(desc), ok,
+               run.where(cfg.nodes[nid].ast),
+               'state change `%s` reaches a checkpoint write before the next step' % desc if ok
+               else 'state change `%s` (%s) is not followed by any checkpoint write before the '
+               'loop comes round / run() returns: a run stopped or killed there resumes from a '
+               'file that does not contain it' % (
+                   desc, sorted({a for a, k in hits if a in persisted})[:4]))
     # -- (6) the shell passed to add_samples is the shell whose update is written
     for c in _calls_to(run, 'add_samples'):
         nid = cfg.node_of(c).id
